@@ -14,6 +14,16 @@ def jobs(tier):
                        functions=["build_connectivity_matrix", "find"],
                        bound="%d ports, every zero / non-zero pattern of the S matrix (symbolic)" % n, timeout=600,
                        cbmc_flags=["--no-leak"]))
+    # port order of a multi-port standard: the cell map of the common funnel places M by SORTED port and S by the
+    # standard's own order, for every order of the two ports (same jobs as C01 link 2, re-run under this id):
+    # entering the same standard as (p1,p2) or (p2,p1) therefore describes the same equations
+    import C01
+    for j in C01.jobs(tier):
+        if j.name.startswith("cell_map."):
+            j.name = "port_order." + j.name
+            j.canary = False
+            j.imported = True
+            J.append(j)
     return J + [V.Job("through_line_mapped", H, "h_through_line_mapped", ["vnacal_layout.c"],
                   strip={"vnacal_new_add_common.c": ["_vnacal_new_add_common"]},
                   unwind=6, union_struct=True, kind="proof", canary=True,
@@ -27,6 +37,7 @@ def jobs(tier):
 ASSUME = [
     "_vnacal_new_add_common's body is removed from the compiled unit and replaced by a recording contract: what the funnel DOES with equal descriptions is deterministic code, so equal descriptions give equal results",
     "port renumbering: only its combinatorial core is decided - the connectivity (block structure) of a standard does not depend on how its ports are numbered (build_connectivity_matrix against the closure specification)",
+    "port order of a two-port standard with an abbreviated measurement matrix: cell placement of _vnacal_new_add_common against its specification for every order of the two ports (C01 cell_map jobs re-run here)",
     "NOT covered (numerical, outside the technique): order of standards, common a/b scaling, frequencies together vs apart, E12 vs UE14, full vs abbreviated measurement matrix",
 ]
 TRUSTED = ["CBMC 6.11", "goto-instrument --remove-function-body"]
